@@ -32,12 +32,13 @@ SMALL_CFG_CAP = {"quick": 6, "thorough": 16}
 
 class Entry:
     def __init__(self, key, name, bind, corpus, prefix, steer=False, family=None, crc=None, repro=None, cfgkey=None,
-                 small=None, unit=None, heavy=False, do_small=True, steer_small=None):
+                 small=None, unit=None, heavy=False, do_small=True, steer_small=None, wrap=None):
         self.key, self.name, self.bind, self._corpus, self.prefix, self.steer = key, name, bind, corpus, prefix, steer
         self.family, self._crc, self.repro, self.cfgkey, self._small, self.unit = family, crc, repro, cfgkey, small, unit
         self.heavy = heavy  # the corpus is a product (unit x managed parameters): substitution region reduced in quick
         self.do_small = do_small  # False: another entry with the same call and configurations runs the small strings
         self._steer_small = steer_small
+        self.wrap = wrap  # wrap(recipe, s) -> octets: the enumerated string s is the payload of a length-consistent, CRC-valid unit
         self.shared = False  # the name is shared by several corpora: violations of the prefix clause name the unit
         self._cache = {}
 
@@ -376,14 +377,12 @@ def _extras(reg):
         from spacepackets.ecss.pus_1_verification import Service1Tm, UnpackParams
 
         params = UnpackParams(r["ts_len"], r["step_w"], r["err_w"])
-        sub = r["sub"]
-        tmref, unpack = RP.tm, Service1Tm.unpack
-        return lambda b: unpack(tmref(1, sub, b"", b, 0x123, 5), params)
+        unpack = Service1Tm.unpack
+        return lambda b: unpack(b, params)
 
     out.append(Entry("x:srv1-source-data", "Service1Tm.unpack", s1_bind, s1_corpus, prefix=False, small=s1_small,
-                     cfgkey=lambda r: (r["sub"], r["step_w"], r["err_w"]),
-                     repro=("ecss", "raw = PusTm(1, {r[sub]}, b'', {b}, apid=0x123, seq_count=5).pack()  # valid service-1 TM around the malformed source data\n"
-                                    "Service1Tm.unpack(bytes(raw), UnpackParams({r[ts_len]}, {r[step_w]}, {r[err_w]}))")))
+                     cfgkey=lambda r: (r["sub"], r["step_w"], r["err_w"]), wrap=lambda r, s_: RP.tm(1, r["sub"], b"", s_, 0x123, 5),
+                     repro=REPRO["Service1Tm.unpack"]))
 
     # --- CFDP
     from units import cfdp_pdu as UP
@@ -445,6 +444,98 @@ def _extras(reg):
     return out
 
 
+# ------------------------------------------------------------------------- payload enumeration (`field` family)
+def pdu_wrap(recipe, s):
+    """reference-encoded PDU of the recipe's kind and header configuration whose data field (behind the directive
+    code) is s: data field length and CRC consistent"""
+    kind, cfg = recipe["kind"], dict(CFG0, **recipe["cfg"])
+    src, seq, dst = RC.cfg_ids(cfg)
+    if kind == "FileDataPdu":
+        ptype, body = RC.FILE_DATA, bytes(s)
+    else:
+        ptype, body = RC.FILE_DIRECTIVE, bytes([RC.DIRECTIVE_CODE[kind]]) + bytes(s)
+    return RC.pdu(ptype, RC.DIRECTION.get(kind, 0), cfg["mode"], cfg["crc"], cfg["large"], cfg.get("segctrl", 0), cfg["idw"], recipe.get("segmeta", 0),
+                  cfg["seqw"], src, seq, dst, body)
+
+
+CFG0 = {"crc": 0, "large": 0, "idw": 1, "seqw": 1, "mode": 0, "segctrl": 0, "ids": "std"}
+
+
+def sp_wrap(recipe, s):
+    """CRC-valid space packet (secondary header flag set) whose whole data field is s + CRC"""
+    from ref import ccsds as RS
+
+    hdr = RS.sp_header(0, recipe["ptype"], 1, 0x123, 3, 5, len(s) + 1)
+    return CRC.with_crc(hdr + bytes(s))
+
+
+def uslp_wrap(recipe, s):
+    """variable-length frame: primary header (no VCF count) whose frame length says 7 + len(s), then s"""
+    return RU.primary_header(0x1234, 0, 5, 3, 7 + len(s) - 1, 0, 0, recipe["ocf"], 0, 0) + bytes(s)
+
+
+def _field_entries(reg):
+    from units import cfdp_pdu as UP
+    from units import cfdp_tlv as UT
+
+    out = []
+    none = lambda tier: []  # noqa: E731 - no corpus: these entries only enumerate payloads
+    key = lambda r: r  # noqa: E731
+
+    def pdu_cfgs(kind, tier):
+        hdrs = [(0, 0, 1, 1), (1, 1, 1, 1)] if tier == "quick" else [(c, l, i, q) for c in (0, 1) for l in (0, 1) for i, q in ((1, 1), (2, 4))]
+        o = []
+        for c, l, i, q in hdrs:
+            for sm in ((0, 1) if kind == "FileDataPdu" else (0,)):
+                o.append({"kind": kind, "cfg": {"crc": c, "large": l, "idw": i, "seqw": q}, "segmeta": sm})
+        return o
+
+    for kind in RC.KINDS:
+        u = UP.UNITS[kind]
+        out.append(Entry(f"f:{kind}.unpack", f"{kind}.unpack", (lambda u_: lambda r: u_.cls().unpack)(u), none, prefix=False, cfgkey=key, wrap=pdu_wrap,
+                         small=(lambda k_: lambda tier: pdu_cfgs(k_, tier))(kind), repro=REPRO[kind + ".unpack"]))
+    out.append(Entry("f:PduFactory.from_raw", "PduFactory.from_raw", lambda r: UP.L.PduFactory.from_raw, none, prefix=False, cfgkey=key, wrap=pdu_wrap,
+                     small=lambda tier: [c for k in RC.KINDS for c in pdu_cfgs(k, tier)[:2 if k == "FileDataPdu" else 1]], repro=REPRO["PduFactory.from_raw"]))
+
+    # PUS: the whole packet data field is the payload (shorter than any secondary header + CRC: must be refused)
+    for un, dn, cfgs in (("PusTc", "PusTc.unpack", [{"ptype": 1}]),
+                         ("PusTm", "PusTm.unpack", [{"ptype": 0, "ts_len": 0}, {"ptype": 0, "ts_len": 7}]),
+                         ("Service17Tm", "Service17Tm.unpack", [{"ptype": 0, "ts_len": 0}]),
+                         ("Service1Tm", "Service1Tm.unpack", [{"ptype": 0, "ts_len": 0, "step_w": 1, "err_w": 1}])):
+        fn = dict(reg[un].decoders())[dn]
+        out.append(Entry(f"f:{dn}", dn, _bind2(fn), none, prefix=False, cfgkey=key, wrap=sp_wrap, small=(lambda c_: lambda tier: c_)(cfgs), repro=REPRO[dn]))
+
+    # TLV / LV: type octet, consistent length octet, payload
+    def tlv_wrap(recipe, s):
+        return bytes([recipe["t"], len(s)]) + bytes(s)
+
+    for un, unit in UT.UNITS.items():
+        if un == "CfdpLv":
+            out.append(Entry("f:CfdpLv.unpack", "CfdpLv.unpack", _bind2(unit.decoders()[0][1]), none, prefix=False, cfgkey=key,
+                             wrap=lambda r, s: bytes([len(s)]) + bytes(s), small=lambda tier: [{}], repro=REPRO["CfdpLv.unpack"]))
+            continue
+        own = 0 if un == "CfdpTlv" else UT.CONCRETE[un][0]
+        types = [0, 1, 2, 3, 4, 5, 6, 255] if un == "CfdpTlv" else [own, (own + 1) % 7]
+        for dn, fn in unit.decoders():
+            out.append(Entry(f"f:{dn}", dn, _bind2(fn), none, prefix=False, cfgkey=key, wrap=tlv_wrap,
+                             small=(lambda t_: lambda tier: [{"t": t} for t in t_])(types), repro=REPRO[dn]))
+
+    # USLP: a frame whose header says exactly 7 + len(payload) octets, decoded as variable and as fixed frame
+    def frame_bind(r):
+        f, _ = _uslp()
+        unpack = f.TransferFrame.unpack
+        if r["ft"] == "fixed":
+            return lambda b: unpack(raw_frame=b, frame_type=f.FrameType.FIXED, frame_properties=f.FixedFrameProperties(fixed_len=len(b), has_insert_zone=False, has_fecf=False))
+        props = f.VarFrameProperties(has_insert_zone=False, has_fecf=False, truncated_frame_len=12)
+        return lambda b: unpack(raw_frame=b, frame_type=f.FrameType.VARIABLE, frame_properties=props)
+
+    for ft in ("var", "fixed"):
+        out.append(Entry(f"f:TransferFrame.unpack({ft})", f"TransferFrame.unpack({ft})", frame_bind, none, prefix=False, cfgkey=key, wrap=uslp_wrap,
+                         small=(lambda ft_: lambda tier: [{"ft": ft_, "ocf": o} for o in (0, 1)])(ft),
+                         repro=(lambda ft_: lambda r, lit: _mp_repro({"mp": [ft_, "len(b)" if ft_ == "fixed" else 12, None, None]}, "b").replace("TransferFrame.unpack(", f"b = {lit}\nTransferFrame.unpack(", 1))(ft)))
+    return out
+
+
 _ENTRIES = None
 
 
@@ -475,7 +566,7 @@ def entries():
             e = Entry(f"{uname}:{dname}", dname, _bind2(fn), _unit_corpus(unit), prefix, steer=dname in STEER or (uname in ("PacketFieldEnum", "FailureNotice")),
                       family=FAMILY.get(uname), crc=unit.crc_protected, repro=rep, cfgkey=ck, unit=unit)
             out[e.key] = e
-    for e in _extras(reg):
+    for e in _extras(reg) + _field_entries(reg):
         out[e.key] = e
     seen = {}
     for e in out.values():
